@@ -62,12 +62,14 @@ type Fault struct {
 
 // Fakes is the in-memory transport standing for all services of a world.
 type Fakes struct {
-	W          *World
-	Cnt        []Counters
-	openBodies int64
-	Reqs       []*SubReq
-	Calls      []HTTPCall
-	Other      []string // requests to non-services, undecodable bodies, ...
+	// LastMultipart is the body of the last multipart call a service received, as it came over the wire
+	LastMultipart []byte
+	W             *World
+	Cnt           []Counters
+	openBodies    int64
+	Reqs          []*SubReq
+	Calls         []HTTPCall
+	Other         []string // requests to non-services, undecodable bodies, ...
 	// FaultFor decides whether HTTP call number `call` (0-based, in arrival order) is faulted.
 	FaultFor func(call int, svc int, n int) *Fault
 	// Values collects every scalar leaf a service put into an answer (taint oracle).
@@ -180,6 +182,7 @@ func (f *Fakes) roundTrip(r *http.Request) (*http.Response, error) {
 	var files map[string]FilePart
 	if ct == "multipart/form-data" {
 		multi = true
+		f.LastMultipart = append([]byte{}, body...)
 		one, fl, err := decodeMultipart(body, params["boundary"])
 		if err != nil {
 			f.Other = append(f.Other, "undecodable multipart request: "+err.Error())
